@@ -22,9 +22,17 @@ def main(argv=None):
              'structured pickling-failure scenario (registered container / middle of the writer stack / last '
              'object, then re-link, commit, read elsewhere); plus 60 (thorough: 1500) programs of the '
              'multi-database family (two databases, primary+secondary connection: modify either, close the '
-             'primary, reopen from the pool, commit, abort, reads through an independent pair; oracle only); non-trivial = a commit or savepoint found a new object '
+             'primary, reopen from the pool, commit, abort, reads through an independent pair; oracle only) and 45 '
+             '(1000) of the explicit-transaction-manager family (begin/commit/abort/modify inside and OUTSIDE a '
+             'transaction — refused with NoTransaction —, close, reopen; oracle only); the pickling scenarios also '
+             'reach new objects through persistent weak references pickled before / without an ordinary reference; non-trivial = a commit or savepoint found a new object '
              'by reachability and some commit failed or a joined transaction was aborted; distinct by hash of the case',
-        assumptions=['the multi-database family is judged by the oracle alone (the Lean model has one database): '
+        assumptions=['the explicit-transaction-manager family is judged by the oracle alone: a refused registration has '
+                     'no effect, the connection takes part in the next transaction as usual',
+                     'a persistent weak reference is treated like an ordinary reference (ZODB adds and stores its '
+                     'target); weak references occur only in structured cases without failing commits (a WeakRef '
+                     'pickled in a failed attempt keeps the oid of that attempt: residual reported with C14)',
+                     'the multi-database family is judged by the oracle alone (the Lean model has one database): '
                      'close succeeds exactly when no connection of the group is joined, a refused close has no '
                      'effect, a reopened pair shows committed state only',
                      'resolving a persistent reference through the pickle cache yields the object that was pickled '
